@@ -66,6 +66,99 @@ mod verif_c09 {
         }
     }
 
+    struct AsHex<'a>(usize, &'a [u64]);
+    impl<'a> core::fmt::Display for AsHex<'a> {
+        fn fmt(&self, f: &mut core::fmt::Formatter<'_>) -> core::fmt::Result {
+            fmt_hex(self.0, self.1, f)
+        }
+    }
+    struct AsBin<'a>(usize, &'a [u64]);
+    impl<'a> core::fmt::Display for AsBin<'a> {
+        fn fmt(&self, f: &mut core::fmt::Formatter<'_>) -> core::fmt::Result {
+            fmt_bin(self.0, self.1, f)
+        }
+    }
+    /// the wrappers fmt_hex / fmt_bin, checked MODULARLY against their callees: to_hex / to_bin are replaced (Kani stub) by
+    /// functions returning a fixed marker text, so the triple says: output == "Lut" + n in decimal + "(" + callee's text + ")".
+    /// (The callees' own contracts are the print_* triples above; formatting a full table through core::fmt is out of reach.)
+    pub fn stub_digits(_num_vars: usize, _table: &[u64]) -> String {
+        String::from("a5")
+    }
+    fn wrap<const T: usize>(n: usize, digits: &str, bin: bool) {
+        let t = [0u64; T];
+        let s = if bin { format!("{}", AsBin(n, &t)) } else { format!("{}", AsHex(n, &t)) };
+        let b = s.as_bytes();
+        let d = digits.as_bytes();
+        assert!(b.len() == 3 + d.len() + 4);
+        assert!(b[0] == b'L' && b[1] == b'u' && b[2] == b't');
+        let mut i = 0;
+        while i < d.len() {
+            assert!(b[3 + i] == d[i]);
+            i += 1;
+        }
+        let k = 3 + d.len();
+        assert!(b[k] == b'(' && b[k + 1] == b'a' && b[k + 2] == b'5' && b[k + 3] == b')');
+        kani::cover!(true, "post-reached");
+    }
+    macro_rules! w {
+        ($name:ident, $t:expr, $n:expr, $digits:expr, $bin:expr) => {
+            #[kani::proof]
+            #[kani::unwind(8)]
+            #[kani::stub(crate::operations::to_hex, stub_digits)]
+            #[kani::stub(crate::operations::to_bin, stub_digits)]
+            fn $name() {
+                wrap::<$t>($n, $digits, $bin);
+            }
+        };
+    }
+    /// Display / LowerHex / Binary of both types forward to the wrappers (same modular triple)
+    fn check_wrapped(s: &str, digits: &str) {
+        let b = s.as_bytes();
+        let d = digits.as_bytes();
+        assert!(b.len() == 3 + d.len() + 4);
+        assert!(b[0] == b'L' && b[1] == b'u' && b[2] == b't');
+        let mut i = 0;
+        while i < d.len() {
+            assert!(b[3 + i] == d[i]);
+            i += 1;
+        }
+        let k = 3 + d.len();
+        assert!(b[k] == b'(' && b[k + 1] == b'a' && b[k + 2] == b'5' && b[k + 3] == b')');
+    }
+    macro_rules! wt {
+        ($name:ident, $unw:expr, $digits:expr, $make:expr) => {
+            #[kani::proof]
+            #[kani::unwind($unw)]
+            #[kani::stub(crate::operations::to_hex, stub_digits)]
+            #[kani::stub(crate::operations::to_bin, stub_digits)]
+            fn $name() {
+                let d = $make;
+                check_wrapped(&format!("{}", d), $digits);
+                check_wrapped(&format!("{:x}", d), $digits);
+                check_wrapped(&format!("{:b}", d), $digits);
+                kani::cover!(true, "post-reached");
+            }
+        };
+    }
+    wt!(c09q_display_d_n1, 8, "1", crate::Lut::zero(1));
+    wt!(c09q_display_s_n1, 8, "1", crate::StaticLut::<1, 1>::zero());
+    wt!(c09q_display_d_n10, 18, "10", crate::Lut::zero(10));
+    wt!(c09q_display_s_n10, 18, "10", crate::StaticLut::<10, 16>::zero());
+    wt!(c09t_display_d_n12, 66, "12", crate::Lut::zero(12));
+    wt!(c09t_display_s_n12, 66, "12", crate::StaticLut::<12, 64>::zero());
+    wt!(c09t_display_d_n0, 8, "0", crate::Lut::zero(0));
+    wt!(c09t_display_s_n7, 8, "7", crate::StaticLut::<7, 2>::zero());
+    w!(c09q_wrap_hex_n0, 1, 0, "0", false);
+    w!(c09q_wrap_hex_n3, 1, 3, "3", false);
+    w!(c09q_wrap_hex_n7, 2, 7, "7", false);
+    w!(c09q_wrap_hex_n9, 8, 9, "9", false);
+    w!(c09q_wrap_hex_n10, 16, 10, "10", false);
+    w!(c09q_wrap_hex_n12, 64, 12, "12", false);
+    w!(c09t_wrap_hex_n11, 32, 11, "11", false);
+    w!(c09q_wrap_bin_n2, 1, 2, "2", true);
+    w!(c09q_wrap_bin_n10, 16, 10, "10", true);
+    w!(c09t_wrap_bin_n12, 64, 12, "12", true);
+
     /// fill_hex on any UTF-8 string of LEN bytes
     fn parse<const LEN: usize>(n: usize) {
         let bytes: [u8; LEN] = kani::any();
